@@ -143,6 +143,14 @@ func (vc *VC) execStmt(s ast.Stmt, st *State, label string) Flow {
 	case *ast.BlockStmt:
 		return vc.execBlock(x.List, st)
 	case *ast.LabeledStmt:
+		if vc.gotoTargets()[x.Label.Name] {
+			// a label that some goto jumps to is the head of an unstructured loop: the state arriving there through a goto is
+			// over-approximated by havocking everything the function body may assign (variables, the heaps it writes) before the
+			// labelled statement runs; the goto itself ends its path (back edge). Sound, imprecise: nothing established before
+			// the label survives it unless it is about unmodified things.
+			vc.abstraction("label " + x.Label.Name + " is a goto target: state havoc'd at the label (unstructured loop head)")
+			vc.havocForLoop(vc.fi.Decl.Body, nil, st, "goto target "+x.Label.Name)
+		}
 		return vc.execStmt(x.Stmt, st, x.Label.Name)
 	case *ast.IfStmt:
 		return vc.execIf(x, st)
@@ -169,6 +177,9 @@ func (vc *VC) execStmt(s ast.Stmt, st *State, label string) Flow {
 		case token.CONTINUE:
 			f.addCont(l, st)
 		case token.GOTO:
+			if x.Label != nil && vc.gotoTargets()[x.Label.Name] {
+				return Flow{} // back edge of the unstructured loop whose head (the label) was havoc'd
+			}
 			vc.outOfSubset = "goto"
 		case token.FALLTHROUGH:
 			f.addBrk("$fallthrough", st)
@@ -1489,4 +1500,28 @@ func (vc *VC) autoVariants(x *ast.ForStmt, body *State) []autoVariant {
 		})
 	}
 	return out
+}
+
+// gotoTargets: the labels of this function that are the target of a goto whose label statement lies in the same function.
+func (vc *VC) gotoTargets() map[string]bool {
+	if vc.gotoT != nil {
+		return vc.gotoT
+	}
+	vc.gotoT = map[string]bool{}
+	labels := map[string]bool{}
+	if vc.fi != nil && vc.fi.Decl != nil && vc.fi.Decl.Body != nil {
+		ast.Inspect(vc.fi.Decl.Body, func(n ast.Node) bool {
+			if l, ok := n.(*ast.LabeledStmt); ok {
+				labels[l.Label.Name] = true
+			}
+			return true
+		})
+		ast.Inspect(vc.fi.Decl.Body, func(n ast.Node) bool {
+			if b, ok := n.(*ast.BranchStmt); ok && b.Tok == token.GOTO && b.Label != nil && labels[b.Label.Name] {
+				vc.gotoT[b.Label.Name] = true
+			}
+			return true
+		})
+	}
+	return vc.gotoT
 }
